@@ -10,8 +10,10 @@ package main
 import (
 	"bytes"
 	"compress/gzip"
+	"crypto/sha1"
 	"encoding/base64"
 	"encoding/binary"
+	"encoding/hex"
 	"encoding/json"
 	"fmt"
 	"io"
@@ -352,6 +354,69 @@ func (s *rsServer) sendPlain(body []byte, desc, how string) {
 	if c != nil {
 		_, _ = c.Write(rsCat(rsU32(uint32(len(pkt))), pkt))
 	}
+}
+
+// sendJunk writes a frame of the TRANSPORT level that is not a sealed message (event J:<payload in hex>, "-" for an
+// empty one; never R: the server's counters stay as they are). what: c<n> — the four-byte error code n (int32; a real
+// server answers a keyed client with -404, -429, -444); z<n> — n zero bytes (n = 4: the code 0; n >= 8: auth_key_id 0);
+// k<n> — n bytes (8 <= n) that begin with the session's auth_key_id, the rest filler: below 24 bytes there is no
+// room for a msg_key; o<n> — the same under another (non-zero) auth_key_id; x<hex> — these bytes.
+func (s *rsServer) sendJunk(what string) bool {
+	if what == "" {
+		return false
+	}
+	var pl []byte
+	n, _ := strconv.Atoi(what[1:])
+	fill := func(head []byte, n int) []byte {
+		b := append([]byte{}, head...)
+		for i := len(b); i < n; i++ {
+			b = append(b, byte(0xA1+7*i))
+		}
+		return b[:n]
+	}
+	switch what[0] {
+	case 'c':
+		v, err := strconv.ParseInt(what[1:], 10, 32)
+		if err != nil {
+			return false
+		}
+		pl = rsU32(uint32(int32(v)))
+	case 'z':
+		if n < 0 || n > 1<<16 {
+			return false
+		}
+		pl = make([]byte, n)
+	case 'k', 'o':
+		if n < 8 || n > 1<<16 {
+			return false
+		}
+		h := sha1.Sum(s.key)
+		id := append([]byte{}, h[12:20]...)
+		if what[0] == 'o' {
+			id[3] ^= 0x5a
+		}
+		pl = fill(id, n)
+	case 'x':
+		b, err := hex.DecodeString(what[1:])
+		if err != nil {
+			return false
+		}
+		pl = b
+	default:
+		return false
+	}
+	s.mu.Lock()
+	c := s.conn
+	s.mu.Unlock()
+	if len(pl) == 0 {
+		s.log.add("J:-")
+	} else {
+		s.log.add("J:%s", hex.EncodeToString(pl))
+	}
+	if c != nil {
+		_, _ = c.Write(rsCat(rsU32(uint32(len(pl))), pl))
+	}
+	return true
 }
 
 // ---- yield rules: hold a goroutine of the client at a named point (build-tag hooks in /repo) -------------
@@ -1833,6 +1898,10 @@ func (r *rsRun) runPlan(plan string) string {
 				return "bad-item:" + st
 			}
 			r.srv.sendPlain(b, desc, how)
+		case strings.HasPrefix(st, "!"): // !c<n> !z<n> !k<n> !o<n> !x<hex>: a transport-level frame that is no sealed message, see sendJunk
+			if !r.srv.sendJunk(st[1:]) {
+				return "bad-item:" + st
+			}
 		case st == "=":
 			if !r.srv.resend() {
 				return "bad-item:="
